@@ -339,6 +339,66 @@ pub fn run(ctx: &Ctx) {
     }
     t.outcome("lengths");
     ctx.space("label lengths 0..=70 (alone, as first and as last label) and encoded name lengths 245..=262", n, "complete");
+    // space 2b: character class x position x length: every label length 0..=70 with every
+    // combination of first / interior / last character class, alone and inside a longer name
+    {
+        let classes: [char; 5] = ['a', '7', '_', '-', 'Z'];
+        let mut n2 = 0u64;
+        for len in 0..=70usize {
+            for first in classes {
+                for mid in classes {
+                    for last in classes {
+                        let label: String = (0..len).map(|i| if i == 0 { first } else if i == len - 1 { last } else { mid }).collect();
+                        for s in [label.clone(), format!("x.{}.local", label), format!("{}.y", label)] {
+                            t.evals += 1;
+                            n2 += 1;
+                            if ref_name(&s).is_ok() {
+                                t.nontrivial += 1;
+                            }
+                            let f = check_text(&s);
+                            if !f.is_empty() {
+                                ctx.violations(f);
+                            }
+                        }
+                        if len <= 2 {
+                            continue;
+                        }
+                    }
+                }
+            }
+        }
+        // every total text length around the 255-byte limit with every label length as the last label
+        for last_len in 1..=63usize {
+            for total in 240..=260usize {
+                // labels of 50 'a's separated by dots, then the last label; total counts encoded bytes
+                let mut labels: Vec<String> = Vec::new();
+                let mut enc = 1 + last_len + 1;
+                while enc + 51 <= total {
+                    labels.push("a".repeat(50));
+                    enc += 51;
+                }
+                let rest = total - enc;
+                if rest == 1 {
+                    continue;
+                }
+                if rest >= 2 {
+                    labels.push("b".repeat(rest - 1));
+                }
+                labels.push("c".repeat(last_len));
+                let s = labels.join(".");
+                t.evals += 1;
+                n2 += 1;
+                if ref_name(&s).is_ok() {
+                    t.nontrivial += 1;
+                }
+                let f = check_text(&s);
+                if !f.is_empty() {
+                    ctx.violations(f);
+                }
+            }
+        }
+        ctx.space("labels of every length 0..=70 x every (first, interior, last) character class over {letter, digit, '_', '-', capital} alone / in the middle / at the start of a name; encoded name lengths 240..=260 x every last-label length 1..=63", n2, "complete");
+    }
     // space 3: pairs
     let names = names_upto(ctx.tier.pick(4, 5));
     for a in &names {
@@ -388,6 +448,34 @@ pub fn run(ctx: &Ctx) {
         ctx.violations(check_local(&[last.clone(), "com".to_string()]));
     }
     ctx.violations(check_local(&[]));
+    {
+        // dictionary names: link-local, subdomain and suffix removal against every other dictionary name of <= 2 labels
+        let dict3 = crate::gen::dictionary_names(3);
+        let mut nd = 0u64;
+        for n in &dict3 {
+            let labels: Vec<String> = n.0.iter().map(|l| String::from_utf8_lossy(&l.0).to_string()).collect();
+            t.evals += 1;
+            nd += 1;
+            if labels.last().map(|l| l.eq_ignore_ascii_case("local")).unwrap_or(false) {
+                t.nontrivial += 1;
+            }
+            ctx.violations(check_local(&labels));
+        }
+        // (case variants stay out of the pair family: the property does not say whether label comparison folds case)
+        let dict2: Vec<Vec<String>> = crate::gen::dictionary_names(2).iter().map(|n| n.0.iter().map(|l| String::from_utf8_lossy(&l.0).to_string()).collect::<Vec<String>>()).filter(|n| n.iter().all(|l| !l.bytes().any(|c| c.is_ascii_uppercase()))).collect();
+        let small: Vec<&Vec<String>> = dict2.iter().filter(|n| n.len() <= 1 || n.iter().all(|l| ["local", "arpa", "in-addr", "ip6", "_tcp", "com", "8", "e"].contains(&l.as_str()))).collect();
+        for a in &dict2 {
+            for b in &small {
+                let aa: Vec<&str> = a.iter().map(|s| s.as_str()).collect();
+                let bb: Vec<&str> = b.iter().map(|s| s.as_str()).collect();
+                t.evals += 1;
+                nd += 1;
+                ctx.violations(check_pair(&aa, &bb));
+                ctx.violations(check_pair(&bb, &aa));
+            }
+        }
+        ctx.space("dictionary names (labels with a conventional meaning: local, arpa, in-addr, ip6, _tcp, ...; well-known full names): is_link_local on every name of <= 3 labels, subdomain / suffix removal on pairs of names of <= 2 labels", nd, "complete");
+    }
     t.outcome("local");
     ctx.space("is_link_local: 32 case variants of 'local' + 11 near misses, in 5 positions", nl + 1, "complete");
     ctx.merge(t);
